@@ -64,12 +64,10 @@ class FuncGen(ExprGen):
 
     def assign(self) -> list[str]:
         rng = self.rng
-        v = self.pick_var(lambda t: True)
+        v = self.pick_var(lambda t: t not in ("callable", "Ctx", "Pt3"))
         if v is None:
             return self.newvar()
         t = self.scope.all()[v]
-        if t == "Pt3":
-            return self.newvar()
         k = rng.random()
         if k < 0.45 and t in ("int", "float", "str", "i64") + tuple(LIST_TYPES):
             if t == "int":
@@ -441,6 +439,8 @@ class FuncGen(ExprGen):
         e = targs(t)[1][0]
         a, b = self.fresh(), self.fresh()
         src = self.expr(t, 1)
+        if src.startswith("["):
+            src = f"list({src})"  # mypy checks the length of a list display against the targets
         self.scope.add(a, e)
         self.scope.add(b, e)
         self.tags.add("unpack.list")
@@ -458,10 +458,11 @@ class FuncGen(ExprGen):
             cap = self.expr("int", 1)
             self.scope.add(fn, "callable")
             call_t = "int"
-            out = [f"{fn} = lambda {p}: {p} * 2 + {cap}" if True else ""]
+            out = [f"{fn} = lambda {p}: {p} * 2 + {cap}"]
+            arg = self.expr('int', 1)
             r = self.fresh()
             self.scope.add(r, "int")
-            return out + [f"{r}: int = {fn}({self.expr('int', 1)})"]
+            return out + [f"{r}: int = {fn}({arg})"]
         self.tags.add("nested.func")
         outer_mut = self.pick_var(lambda t: t in ("int", "str")) if rng.random() < 0.5 else None
         saved_ret, self.ret = self.ret, rt
